@@ -1187,10 +1187,13 @@ std::string MathLib::mod(const std::string &first, const std::string &second)
     return (value(first) % value(second)).str();
 #else
     if (MathLib::isInt(first) && MathLib::isInt(second)) {
+        const bigint a = toBigNumber(first);
         const bigint b = toBigNumber(second);
         if (b == 0)
             throw InternalError(nullptr, "Internal Error: Division by zero");
-        return MathLib::toString(toBigNumber(first) % b) + intsuffix(first, second);
+        if (a == std::numeric_limits<bigint>::min() && std::abs(b)<=1)
+            throw InternalError(nullptr, "Internal Error: Division overflow");
+        return MathLib::toString(a % b) + intsuffix(first, second);
     }
     return toString(std::fmod(toDoubleNumber(first),toDoubleNumber(second)));
 #endif
